@@ -24,7 +24,7 @@ COMPONENTS = {
              'slimta.smtp.reply.Reply'],
     'stub': ['SimLoop', 'SimSocket'],
 }
-BUDGET = {'quick': 10000, 'thorough': 800000}
+BUDGET = {'quick': 40000, 'thorough': 800000}
 PROBES = ['multi-line', 'esc-prefix', 'esc-class-mismatch', 'unicode',
           'embedded-cr', 'pipelined-successor', 'malformed-mixed-codes',
           'malformed-non-numeric', 'malformed-out-of-range',
